@@ -1,46 +1,117 @@
-#[allow(unused_imports, unused_qualifications, missing_docs, non_snake_case, unused)]
-pub mod g_t_fold {
-    include!(concat!(env!("OUT_DIR"), "/t_fold.rs"));
-}
-#[allow(unused_imports, unused_qualifications, missing_docs, non_snake_case, unused)]
-pub mod g_top_count {
-    include!(concat!(env!("OUT_DIR"), "/top_count.rs"));
-}
+//! E4 `e4_hydroprod` — production-compiled Hydro flows (embedded back end) under simulated tick
+//! partitions and a simulated network (DESIGN.md §4 E4; properties C28, C29, C30, C32, C33).
 
-use std::cell::RefCell;
-use std::collections::VecDeque;
-use std::pin::Pin;
-use std::rc::Rc;
-use std::task::{Context, Poll};
+pub mod corpus;
+pub mod net;
+pub mod p28;
+pub mod p30;
+pub mod sched;
 
-pub struct SimStream<T>(pub Rc<RefCell<VecDeque<T>>>);
-impl<T> futures::Stream for SimStream<T> {
-    type Item = T;
-    fn poll_next(self: Pin<&mut Self>, _cx: &mut Context<'_>) -> Poll<Option<T>> {
-        match self.0.borrow_mut().pop_front() {
-            Some(x) => Poll::Ready(Some(x)),
-            None => Poll::Pending,
+use simcore::runner::{Engine, Prop, Scenario};
+use simcore::{Outcome, Sim};
+
+use e4_gen::val::Val;
+
+/// FNV hash of a nested output structure (event log / distinct-state measure).
+pub fn hash_vals<T: std::fmt::Debug>(t: &T) -> u64 {
+    simcore::hash_debug(t)
+}
+#[allow(dead_code)]
+fn _unused(_: Val) {}
+
+/// One scenario per corpus entry: `scenarios!(module; a, b, c)`.
+macro_rules! scenarios {
+    ($m:ident) => {{
+        let mut v: Vec<Scenario> = vec![];
+        // fn pointers cannot capture the entry: dispatch through a const-generic index
+        fn runner<const I: usize>(sim: &mut Sim) -> Outcome {
+            $m::run(&$m::ENTRIES[I], sim)
         }
-    }
+        seq_macro_lite!(v, runner, $m::ENTRIES.len());
+        for (i, s) in v.iter_mut().enumerate() {
+            s.name = $m::ENTRIES[i].name;
+        }
+        v
+    }};
 }
-impl<T> Unpin for SimStream<T> {}
+/// push `Scenario { run: runner::<I> }` for I in 0..N (N <= 64)
+macro_rules! seq_macro_lite {
+    ($v:ident, $f:ident, $n:expr) => {{
+        let n: usize = $n;
+        macro_rules! one { ($i:literal) => { if $i < n { $v.push(Scenario { name: "", weight: 1, run: $f::<$i> }); } }; }
+        one!(0); one!(1); one!(2); one!(3); one!(4); one!(5); one!(6); one!(7);
+        one!(8); one!(9); one!(10); one!(11); one!(12); one!(13); one!(14); one!(15);
+        one!(16); one!(17); one!(18); one!(19); one!(20); one!(21); one!(22); one!(23);
+        one!(24); one!(25); one!(26); one!(27); one!(28); one!(29); one!(30); one!(31);
+        one!(32); one!(33); one!(34); one!(35); one!(36); one!(37); one!(38); one!(39);
+        one!(40); one!(41); one!(42); one!(43); one!(44); one!(45); one!(46); one!(47);
+        one!(48); one!(49); one!(50); one!(51); one!(52); one!(53); one!(54); one!(55);
+        one!(56); one!(57); one!(58); one!(59); one!(60); one!(61); one!(62); one!(63);
+        assert!(n <= 64, "more than 64 entries: extend seq_macro_lite");
+    }};
+}
+
+const REAL: &[&str] = &[
+    "hydro_lang IR construction (live_collections::*, location::*)",
+    "hydro_lang::compile::ir emit_core with ProdDfirBuilder (production code generation)",
+    "hydro_lang::compile::embedded::generate_embedded",
+    "dfir_lang graph partitioning + code generation, the generated DFIR tick closures (rustc-compiled)",
+    "dfir_rs scheduled::context::Dfir::run_tick_sync, dfir_pipes, sinktools",
+];
+const STUBS: &[&str] = &[
+    "embedded inputs (SimStream: items released for the current tick, then Pending)",
+    "embedded outputs (recording closures stamped with the tick index)",
+    "tick driver (which tick runs when; trailing empty ticks)",
+    "hand-written plain-Rust specs per corpus entry",
+];
+
+const STUBS_NET: &[&str] = &[
+    "embedded inputs (SimStream: items released for the current tick, then Pending)",
+    "embedded outputs (recording closures stamped with the location's tick index)",
+    "the network: EmbeddedNetworkOut closures push into simulator-owned FIFO wires, EmbeddedNetworkIn streams are fed from them",
+    "per-location tick driver / scheduler, cluster member ids",
+    "hand-written plain-Rust specs per corpus entry",
+];
 
 fn main() {
-    for part in [vec![5usize], vec![1, 1, 1, 1, 1], vec![0, 2, 0, 3]] {
-        let q = Rc::new(RefCell::new(VecDeque::new()));
-        let mut got = vec![];
-        let mut outs = g_top_count::top_count::EmbeddedOutputs { out0: |x: usize| got.push(x) };
-        let mut flow = g_top_count::top_count(SimStream(q.clone()), &mut outs);
-        let mut next = 0;
-        for n in part.iter().chain([0usize].iter()) {
-            for _ in 0..*n {
-                q.borrow_mut().push_back(next);
-                next += 1;
-            }
-            let w = flow.run_tick_sync();
-            print!("{w} ");
-        }
-        drop(flow);
-        println!("{part:?} -> {got:?}");
-    }
+    let engine = Engine {
+        name: "e4_hydroprod",
+        props: vec![
+        Prop {
+            id: "C28",
+            scenarios: scenarios!(p28),
+            quick_runs: 300_000,
+            thorough_runs: 30_000_000,
+            rule: "each run picks one corpus flow whose top-level operators use only safe APIs (production-generated code; nondet! only in the trailing observation shims), draws knobs and input items (<= 12 items in total), and executes it twice on the same inputs: canonical schedule (everything released before tick 0, eager network) and a seeded schedule (independent partition of every input into ticks incl. empty ticks; for multi-location flows which location ticks next and how many in-flight messages of each FIFO wire are delivered before a tick). Distinct = distinct hash of (entry, realised decision trace); non-trivial = at least one item flowed AND (the partition differs from all-at-once OR a message crossed the simulated network).",
+            time_unit: "ticks",
+            real: REAL,
+            stubs: STUBS_NET,
+            assumptions: &[
+                "sampled schedules, not exhaustive; <= 12 input items, <= 3 locations, cluster size 2",
+                "TCP.fail_stop() is modelled as one FIFO wire per (sender, receiver) pair: no loss, no duplication, arbitrary delay, arbitrary interleaving across pairs; crashes are not injected for C28",
+                "idle = every location's last tick reported no pending work and no message is in flight or undelivered; the drain phase after the last seeded step is fair (round-robin, immediate delivery), bound 4*(items+hops)+8 rounds",
+                "final value of singletons/optionals/keyed singletons = what the per-tick snapshot shim emits in the last tick after idleness",
+                "only the embedded production back end is run (deploy/trybuild glue shares emit_core but is not executed)",
+            ],
+            required_probes: &["empty_tick", "multi_item_batch_and_several_ticks", "net_delay", "two_messages_in_flight"],
+        },
+        Prop {
+            id: "C30",
+            scenarios: scenarios!(p30),
+            quick_runs: 400_000,
+            thorough_runs: 40_000_000,
+            rule: "each run picks one corpus flow of the form input.batch(&tick, nondet!) -> <tick operators> -> all_ticks() (production-generated code), draws knobs (length <= 8, value/key domain, partition mode), input items per embedded input, and the partition of every input into ticks (all-at-once, singletons, random gaps, bursts, leading/trailing empty ticks; different inputs partitioned independently) plus 2-4 trailing empty ticks. Distinct = distinct hash of (entry, realised decision trace); non-trivial = at least one item flowed AND the partition differs from everything-in-tick-0.",
+            time_unit: "ticks",
+            real: REAL,
+            stubs: STUBS,
+            assumptions: &[
+                "sampled partitions, not exhaustive; inputs of length <= 8 per input, <= 2 inputs",
+                "a tick of the embedded back end is one call of Dfir::run_tick_sync; the batch of tick i is exactly what the input stream yields before it answers Pending",
+                "only the embedded production back end is run (deploy/trybuild glue shares emit_core but is not executed)",
+                "where documentation leaves multiplicity/order open (anti_join on duplicate rows, join with several build matches) inputs are generated so that both readings agree",
+            ],
+            required_probes: &["empty_tick", "two_nonempty_batches", "multi_item_batch_and_several_ticks"],
+        }],
+    };
+    simcore::runner::main(engine);
 }
